@@ -35,11 +35,13 @@ AgreesOn(w, K, v)     == \A c \in K : w[c] = v[c]
 
 \* ---- Shapley value (C06): n! * (average marginal contribution over all orderings) ----
 Fact(k) == IF k <= 1 THEN 1 ELSE ProductSet(1..k)
-Orderings == Permutations(Players)          \* pos[j] = position of player j
+\* pos[j] = position of player j.  TLC evaluates this constant once at start-up for every module that extends GameTheory; it is
+\* only ever used for N <= 8 (8! = 40320), larger instances (coalition algebra at N = 9..13) must not pay N! for it
+Orderings == IF N <= 8 THEN Permutations(Players) ELSE {}
 PredOf(pos, i) == IdOf({j \in Players : pos[j] < pos[i]})
 ShapleyPermN(i, v) ==
   LET marg(pos) == v[PredOf(pos, i) + 2^i] - v[PredOf(pos, i)]
-  IN  MapThenSumSet(marg, Orderings)
+  IN  IF N <= 8 THEN MapThenSumSet(marg, Orderings) ELSE Assert(FALSE, "ShapleyPermN is defined for N <= 8 only")
 
 \* the weighted form (coefficient s!(n-s-1)! for |S| = s, S without the player)
 ShapleyWeightedN(i, v) ==
